@@ -124,6 +124,8 @@ type Inject struct {
 	NoiseKind string           `json:"noise_kind,omitempty"`
 	NoiseArg  int              `json:"noise_arg,omitempty"`
 	Rewrite   []simnet.Perturb `json:"rewrite,omitempty"` // applied before the noise mutation (e.g. move the reply to a foreign flow)
+	Repeat    int              `json:"repeat,omitempty"`   // deliver this many copies ...
+	EveryUs   int              `json:"every_us,omitempty"` // ... this far apart (a flood)
 }
 
 type Scn struct {
@@ -507,6 +509,9 @@ func (s *Script) OnProbe(n *simnet.Net, sink *simnet.Sink, p *refcodec.Packet, r
 		gen, ans := in.Genuine, in.AnswerTTL
 		if !gen && in.AliasTTL > 0 && s.Seen[sink.ID][in.AliasTTL] != nil {
 			gen, ans = true, in.AliasTTL
+		}
+		for k := 1; k < in.Repeat; k++ {
+			out = append(out, simnet.Reply{DelayNs: d + int64(k)*int64(in.EveryUs)*1000, Raw: b, Meta: simnet.Meta{ToTTL: -1, Tag: in.Tag, From: from, Flow: sink.ID}})
 		}
 		out = append(out, simnet.Reply{DelayNs: d, Raw: b, Meta: simnet.Meta{ToTTL: ans, Genuine: gen, Tag: in.Tag, From: from, Flow: sink.ID}})
 		if gen {
